@@ -1,5 +1,7 @@
 use crate::runner::Property;
 
+pub mod c07;
+pub mod c09;
 pub mod c10;
 pub mod c12;
 pub mod c13;
@@ -8,6 +10,8 @@ pub mod c15;
 
 pub fn get(id: &str) -> Option<Property> {
     Some(match id {
+        "C07" => c07::property(),
+        "C09" => c09::property(),
         "C10" => c10::property(),
         "C12" => c12::property(),
         "C13" => c13::property(),
